@@ -2,6 +2,8 @@
      types                                       -> message types that carry a status
      x <exp> <act> <code> <desc> <fe> <pe>       -> one outcome line
      r <exp> <act> <lo> <hi> <desc> <fe> <pe>    -> one outcome line per code in [lo,hi)
+     hw <negotiated version> <first id> <wire event>... -> Client/StatusWire.v: wresults (ids derived from the order of writes);
+          events Q:<exp> | W | A:<id> | N:<ver> | R:... ; answer as for h
      ts <fuel> <k> <exp> <act> <code> <desc> <fe> <pe> -> Client/StatusDriver.v: try_send fuel (k x AClosed ++ [AOutcome (send_for_outcome ...)])
      xf <exp> <act>                              -> the outcome when the reply's payload does not decode (DecFail)
      dt <lo> <hi>                                -> per code: which text defaultText picks (table + index)
@@ -88,6 +90,27 @@ let parse_event tok =
     XRecv { fr_ver = ni v; fr_type = ni t; fr_id = ni id; fr_dec = decoded_wf s }
   | _ -> failwith ("bad event " ^ tok)
 
+(* wire-level events (Client/StatusWire.v): Q:<exp> request | W SendNoWait | A:<id> | N:<ver> | R:... frame (as in h) *)
+let parse_wevent tok =
+  match String.split_on_char ':' tok with
+  | ["Q"; e] -> WRequest (ni e)
+  | ["W"] -> WNoWait
+  | ["A"; id] -> WAbandon (ni id)
+  | ["N"; v] -> WNegotiated (ni v)
+  | "R" :: _ -> (match parse_event tok with XRecv f -> WFrame f | _ -> failwith "bad frame")
+  | _ -> failwith ("bad wire event " ^ tok)
+
+let put_results rs =
+  Buffer.clear buf;
+  if rs = [] then Buffer.add_char buf '-';
+  List.iteri (fun k (id, r) ->
+      if k > 0 then Buffer.add_string buf " | ";
+      Buffer.add_string buf (string_of_int (int_of_n id)); Buffer.add_char buf '=';
+      (match r with
+       | XAbandoned -> Buffer.add_string buf "abandoned"
+       | XOutcome o -> put_outcome o)) rs;
+  print_endline (Buffer.contents buf)
+
 let history v toks =
   let evs = List.map parse_event (List.filter (fun t -> t <> "") toks) in
   let rs = xresults (ni v) evs in
@@ -133,6 +156,8 @@ let () =
              | TDevice i -> "device " ^ string_of_int (int_of_n i) | TUnknown c -> "unknown " ^ string_of_int (int_of_n c)))
          done
        | "h" :: v :: toks -> history v toks
+       | "hw" :: v :: n0 :: toks ->
+         put_results (wresults (ni v) (ni n0) (List.map parse_wevent (List.filter (fun t -> t <> "") toks)))
        | [""] -> ()
        | _ -> print_endline ("error: bad request: " ^ line))
     done
